@@ -58,27 +58,30 @@ Check (C01_clone_from : forall dst src w' evs, Inv dst -> Inv src -> w_n dst = w
   clone_from_world dst src = Some (w', evs) -> feq (absf w') (absf src) /\ w_len w' = w_len src).
 Print Assumptions C01_clone_from.
 
-(** Known finding F5 (class K01), kept visible: a batch of component-less
-    entities has length 0 in the code, so nothing is stored and no identifier is
-    returned although n rows were written.  The model is faithful to the code
-    ([batch_rows]); the reference map of the property text would hold n new
-    entities.  Witness, replayed on the implementation by corpus/wh/f5_empty_batch.ops: *)
-Example C01_K01_refuted :
+(** Extend stores one entity per written row and returns one identifier per row, also for a batch of
+    component-less entities ([entities!((); n)], [entities!((), (), ())]): the number of rows travels with
+    the batch, which is read off the source ([fact_batch_carries_row_count]).  Finding F5 REPAIRED. *)
+Lemma fact_carries : fact_batch_carries_row_count = true.
+Proof. reflexivity. Qed.
+
+Theorem C01_extend_rows : forall comps rows, batch_rows comps rows = rows.
+Proof. intros comps rows. unfold batch_rows, batch_rows_gen. rewrite fact_carries. reflexivity. Qed.
+Check (C01_extend_rows : forall comps rows, batch_rows comps rows = rows).
+Print Assumptions C01_extend_rows.
+
+Example C01_componentless_batch :
   match step (empty_world 2 []) (Extend [] [[]; []; []]) with
-  | Some (w', OIds ids, _) => ids = [] /\ w_len w' = 0
+  | Some (w', OIds ids, _) => length ids = 3 /\ w_len w' = 3
   | _ => False
   end.
 Proof. vm_compute. auto. Qed.
 
-(** Outside that class extend stores one entity per written row. *)
-Definition K01 (o : op) : Prop := match o with Extend [] (_ :: _) => True | _ => False end.
-Theorem C01_extend_rows : forall comps rows, ~ K01 (Extend comps rows) -> batch_rows comps rows = rows.
-Proof.
-  intros comps rows H. destruct comps as [|c cs]; [|reflexivity].
-  destruct rows as [|r rs]; [reflexivity|]. exfalso. apply H. exact I.
-Qed.
-Check (C01_extend_rows : forall comps rows, ~ K01 (Extend comps rows) -> batch_rows comps rows = rows).
-Print Assumptions C01_extend_rows.
+(** ... as it was before the repair (finding F5, class K01): the length of a batch was read off its first
+    column, so a batch without columns had length 0 whatever the number of rows written. *)
+Theorem C01_F5_before_the_repair : batch_rows_gen false [] [[]; []; []] = [] /\
+  forall c cs rows, batch_rows_gen false (c :: cs) rows = rows.
+Proof. split; reflexivity. Qed.
+Print Assumptions C01_F5_before_the_repair.
 
 (** Non-vacuity of the refinement on a history with a swap-remove and shape changes. *)
 Example C01_example :
